@@ -15,7 +15,8 @@ def run(ctx):
     binp = bc.driver(ctx)
     vec = [v for v in vlib.read_ndjson(vlib.generate(ctx, "Bech32Gen")) if v["op"] == "bech32.Encode"]
     g = bc.run_ops(ctx, binp, vec, "g")
-    t = [e for e in bc.record(ctx, binp, 1500 if q else 30000, "t") if e["op"] == "bech32.Encode"]
+    full = bc.record(ctx, binp, 1500 if q else 30000, "t")
+    t = [e for e in full if e["op"] == "bech32.Encode"]
     for e in g:
         e["t"] = 1
     for e in t:
@@ -23,7 +24,7 @@ def run(ctx):
     vlib.note_events(ctx, g + t)
     vlib.call_history_model(ctx)
     vlib.call_histories(ctx, binp, t, ["bech32.Encode"], "Bech32Trace", "real Encode (or Decode of its output) disagrees with the Bech32 specification")
-    bc.judge(ctx, binp, g + t, "real Encode (or Decode of its output) disagrees with the Bech32 specification")
+    bc.judge(ctx, binp, g + t, "real Encode (or Decode of its output) disagrees with the Bech32 specification", history=g + full)
     return vlib.finish(ctx, LEVEL, RULE, bc.ASSUME, matchers=bc.MATCHERS,
                        technique="TLA+ spec Bech32; TLC-generated (hrp,data) replayed; recorded Encode calls and the real round trip validated by TLC")
 
